@@ -406,15 +406,33 @@ func harnessC09grpc() {
 	vCover("history-done")
 
 	f := vNondetU32("f")
-	vAssume(f != x1 && f != x2 && f != a)
+	if vChoice(2) == 1 {
+		// not a fresh ID: the one whose dial timed out earlier is tried again, this time with an accept (C07: accept and
+		// dial within the window succeed, whatever happened to that number before)
+		vCover("retry-of-timed-out-id")
+		f = x1
+	} else {
+		vAssume(f != x1 && f != x2 && f != a)
+	}
 	vSleepUntil(last + 12*sec)
 	lnF, e1 := pb.Accept(f)
+	gapF := vNondetTime("gapF")
+	vAssume(gapF >= 0 && gapF <= 4*sec)
+	vSleepUntil(vNow() + gapF)
 	cF, e2 := hb.Dial(f)
-	vAssert(e1 == nil && e2 == nil, "C09: after the history a fresh accept/dial pair still succeeds")
+	if vParam("as_c07") == 1 { // the same run registered under C07: the routing claim after such a history
+		vAssert(e1 == nil && e2 == nil, "C07: accept and dial within the pending window succeed after unmatched dials (also on a number whose dial timed out before)")
+	} else {
+		vAssert(e1 == nil && e2 == nil, "C09: after the history a fresh accept/dial pair still succeeds")
+	}
 	nf, errF := connG[cF].dialer("", 0)
-	vAssert(errF == nil, "C09: the fresh connection reaches a live listener")
 	gotF, _ := lnF.Accept()
-	vAssert(gotF.(*vNetConn) == nf.(*vNetConn).peer, "C09: the fresh pair is connected")
+	if vParam("as_c07") == 1 {
+		vAssert(errF == nil && gotF.(*vNetConn) == nf.(*vNetConn).peer, "C07: the connection dialled for n reaches the listener accepted for n (after unmatched dials)")
+	} else {
+		vAssert(errF == nil, "C09: the fresh connection reaches a live listener")
+		vAssert(gotF.(*vNetConn) == nf.(*vNetConn).peer, "C09: the fresh pair is connected")
+	}
 	vCover("fresh-pair")
 
 	hb.Close()
